@@ -6,6 +6,7 @@ package main
 // and checked by the property monitors against mint-side ground truth.
 
 import (
+	"context"
 	"encoding/hex"
 	"encoding/json"
 	"fmt"
@@ -34,7 +35,7 @@ const (
 	oSendHTLC  = 5  // (5 w m amount fees to withsig sigall) -> token
 	oRecvHTLC  = 6  // (6 w t)
 	oMelt      = 7  // (7 w m sat outcome)                 -> melt quote
-	oResolve   = 8  // (8 q how)   how: 1 the payment succeeds, 2 it fails; then CheckMeltQuoteState
+	oResolve   = 8  // (8 q how)   how: 1 the payment succeeds, 2 it fails; then CheckMeltQuoteState; 4 / 3: the same without the poll
 	oRemove    = 9  // (9 w)
 	oReclaim   = 10 // (10 w)
 	oMintSwap  = 11 // (11 w from to amount outcome)
@@ -477,6 +478,7 @@ func (h *wHist) checkC17(kind string) {
 	lnS := h.cause
 	held := map[*wMint][]heldProof{}
 	owner := map[string]string{}
+	unreconciled := map[string]bool{}
 	for _, wl := range w.wallets {
 		if wl.W == nil {
 			continue
@@ -524,6 +526,13 @@ func (h *wHist) checkC17(kind string) {
 			if m := h.mintOfKeyset(p.Id); m != nil {
 				held[m] = append(held[m], heldProof{p.Secret, p.Amount, p.Id, "p"})
 			}
+			// locked in a melt the wallet has not reconciled yet: its stored quote still says PENDING (the payment may have
+			// failed at the backend meanwhile - the wallet learns of it by its next poll or by Melt on the same quote)
+			if p.MeltQuoteId != "" {
+				if q := wl.store.inner.GetMeltQuoteById(p.MeltQuoteId); q != nil && q.State == nut05.Pending {
+					unreconciled[p.Secret] = true
+				}
+			}
 		}
 	}
 	// tokens handed to callers: plain sends are also in the sender's pending bucket
@@ -562,7 +571,7 @@ func (h *wHist) checkC17(kind string) {
 				H += p.amount
 			}
 			// pending = handed out (and not yet reconciled) or locked in a melt
-			if p.where == "p" && s == nut07.Unspent && !inToken[p.secret] && !h.flagged[p.secret] {
+			if p.where == "p" && s == nut07.Unspent && !inToken[p.secret] && !unreconciled[p.secret] && !h.flagged[p.secret] {
 				h.flagged[p.secret] = true
 				h.violate("pending-proof-neither-handed-out-nor-locked op="+kind,
 					fmt.Sprintf("a pending proof of %d is UNSPENT at mint %d, in no token and locked by no melt", p.amount, m.idx), nil)
@@ -859,12 +868,21 @@ func (h *wHist) OpResolve(qi int, how int) {
 	op := L(A(oResolve), A(int64(qi)), A(int64(how)))
 	h.lastOutcome = how
 	if p := h.w.pay[ref.q.hash]; p != nil && p.status == 3 {
-		if how == 1 {
+		if how == 1 || how == 4 {
 			p.status = 1
 			ref.q.m.ln.settle(p.hash)
 		} else {
 			p.status = 2
 		}
+	}
+	if how > 2 {
+		// at the backend only: the wallet is not told (it finds out by a later poll, or by Melt on the same quote)
+		out := h.w.run(ref.wl, 0, func() (any, error) {
+			ref.q.m.tm.M.GetMeltQuoteState(context.Background(), ref.q.id) // somebody polls the quote at the mint: the mint adopts the outcome
+			return uint64(0), nil
+		})
+		h.finishOp("melt-resolve", op, ref.wl, out, false)
+		return
 	}
 	out := h.w.run(ref.wl, 0, func() (any, error) {
 		res, err := ref.wl.W.CheckMeltQuoteState(ref.q.id)
